@@ -109,6 +109,18 @@ func (o *qOracle) side(p Msg, n *Msg, now int64) sideVerdict {
 	return sideNo
 }
 
+// envError: the error text names a condition of the machine (disk, locking between processes),
+// not of the code under test.
+func envError(e string) bool {
+	l := strings.ToLower(e)
+	for _, k := range []string{"no space", "disk", "i/o", "busy", "locked", "too many open files", "permission", "read-only", "readonly", "out of memory"} {
+		if strings.Contains(l, k) {
+			return true
+		}
+	}
+	return false
+}
+
 func capBatch(n int) int {
 	if n <= 0 {
 		return 1
@@ -165,6 +177,11 @@ func (o *qOracle) validate(step int, prev, next Snap, r resolvedOp, res QRes) *v
 	genericTag := "C02"
 
 	if strings.HasPrefix(res.Err, "other:") && !(op.K == "list") {
+		if op.K == "deq" && !envError(res.Err) {
+			// no fault is injected in this tier: a dequeue that fails hands out nothing although
+			// capacity was requested
+			return fail("C05,C03", "dequeue-internal-error", step, "dequeue returned %s", res.Err)
+		}
 		return fail("HARNESS", "unexpected-error", step, "op %s returned %s", op.K, res.Err)
 	}
 
